@@ -9,7 +9,7 @@ from symsig import scalar as S
 PROPERTY = "C06"
 FUNCTIONS = ["sigpy.fourier.nufft", "sigpy.fourier.nufft_adjoint", "sigpy.fourier._apodize/_scale_coord/_get_oversamp_shape",
              "sigpy.interp.interpolate / gridding with the Kaiser-Bessel kernel (numba kernels run as Python)", "sigpy.fourier.fft / ifft, sigpy.util.resize"]
-BOUNDS = {"quick": "image shapes [4], [5], [3,4], [4,3], [2,3,2] and [2,4] with a batch axis; coordinate families random / on-grid / half-integer / "
+BOUNDS = {"quick": "image shapes [4], [5], [3,4], [4,3], [2,3,2] and [2,4] with a batch axis; call histories (an earlier transform of the same shape with an oversampling factor that rounds to the same grid length); coordinate families random / on-grid / half-integer / "
                    "out-of-range (6 points each, fixed seed); (oversamp, width) in {(1.25, 4), (2, 4)}; x ANY complex array with |Re x_j|, |Im x_j| <= 0.7071 (entries in the unit disc)",
           "thorough": "adds [8], [5,6], [4,4], [3,4,2], clustered coordinates, width 6"}
 OUTSIDE = ["coordinates are concrete (the transform is transcendental in them); other coordinate sets, larger shapes, oversamp/width outside the two pairs",
@@ -23,7 +23,7 @@ EXPLANATION = ("C06 (partial): for every listed shape / coordinate set / (oversa
                "differs from the exact non-uniform DFT by at most 3 % (0.3 % at oversamp 2) of the NDFT's operator infinity norm, and nufft_adjoint from the "
                "NDFT's conjugate transpose by the same fraction of its norm; coordinates outside [-N/2, N/2) are included (periodicity).")
 CONFIG_BUDGET_S = {"quick": 900, "thorough": 3600}
-TOL = {(1.25, 4): 0.03, (2, 4): 0.003, (1.25, 6): 0.003, (2, 6): 0.0003}
+TOL = {(1.25, 4): 0.03, (1.3, 4): 0.03, (1.375, 4): 0.03, (2, 4): 0.003, (1.25, 6): 0.003, (2, 6): 0.0003}
 
 
 def _ndft(tshape, coord):
@@ -59,6 +59,10 @@ def h_nufft(cfg, V):
     tshape = shape[nb:]
     coord = _coords(cfg["coords"], tshape, cfg.get("cseed", 1))
     osf, width = cfg["oversamp"], cfg["width"]
+    for osf0, w0 in cfg.get("before", []):
+        # call history: an earlier transform of the same shape with other parameters must not influence this one
+        sp.nufft(np.ones(tshape, dtype=np.complex128), coord, oversamp=osf0, width=w0)
+        sp.nufft_adjoint(np.ones(coord.shape[0], dtype=np.complex128), coord, oshape=tshape, oversamp=osf0, width=w0)
     D = _ndft(tshape, coord)                      # [npts, npix]
     npix = int(np.prod(tshape))
     npts = coord.shape[0]
@@ -118,4 +122,8 @@ def configs(tier, seed):
                     continue
                 out.append({"id": "nufft:%s:batch=%d:%s:os=%s:w=%s" % (sh, nb, k, osf, w), "h": "nufft", "shape": sh, "batch": nb, "coords": k,
                             "oversamp": osf, "width": w, "field": 4, "cost": int(np.prod(sh))})
+    # call histories: the same shape first with another oversampling factor that rounds to the same oversampled grid length
+    for sh, before, osf in (([6], [(1.25, 4)], 1.3), ([6], [(1.3, 4)], 1.25), ([5], [(1.375, 4)], 1.25), ([4, 6], [(1.3, 4)], 1.25)):
+        out.append({"id": "nufft:%s:after=%s:rand:os=%s:w=4" % (sh, before, osf), "h": "nufft", "shape": sh, "batch": 0, "coords": "rand",
+                    "oversamp": osf, "width": 4, "before": before, "field": 4, "cost": 50})
     return out
